@@ -3,7 +3,7 @@
 From V.lib Require Import Base.
 From V.c01 Require Import C01Codec C01Model C01LeafProofs C01Leaf2Proofs C01Leaf3Proofs C01Leaf4Proofs C01Leaf5Proofs C01Leaf6Proofs C01TableProofs C01TreeProofs C01WhyProofs C01Witness C01Witness3
   C01RealFiles C01RealWitness C01SizeProofs C01LocalProofs C01StableProofs C01FixProofs C01Witness4 C01EsdsProofs C01SgpdProofs C01Witness5
-  C01FileModel C01FileProofs C01FileExamples C01FileWitness C01Witness6.
+  C01FileModel C01FileProofs C01FileExamples C01FileWitness C01Witness6 C01GenModel C01GenProofs C01GenFileModel C01GenFileProofs C01GenWitness.
 
 (* a compact header written by EncodeHeaderSW is read back by DecodeHeaderSR *)
 Theorem C01_header_rt : forall name sz r, lenN name = 4 -> 8 <= sz < 4294967296 ->
@@ -172,13 +172,27 @@ Print Assumptions C01_leaf_stable.
    per-box FixedSliceWriter capacities and the 2^32 limit; encode_sw = Box.EncodeSW into one writer of Size() bytes) with the
    same bytes enc, of the input's length = Size(); decoding enc succeeds and yields norm_box t, i.e. t up to the captured
    reserved bytes (their erasures are equal); encoding that once more gives enc again on all three.  enc differs from the
-   input at most in the captured bytes (C01_tree). *)
-Theorem C01_fixpoint : forall bs t, bytes_ok bs = true -> decode bs = Ok (t, []) -> exact_box t = true ->
-  exists enc, raw_box false t = Ok enc /\ encode_w t = Ok enc /\ encode_sw t = Ok enc /\
+   input at most in the captured bytes (C01_tree).
+   SECOND CONJUNCT (generation2; one theorem with the first because each Print Assumptions over stable_all costs ~12 s of every run):
+   the last sentence of the property ("decoding that output again succeeds ... encoding it once more gives exactly the same bytes")
+   for accepted inputs OUTSIDE the first conjunct: NO exactness hypothesis on the first tree t (trailing body bytes dropped, header
+   size ignored, large-size header compacted, trak re-ordered, guarded shapes ...), bytes may be left over (rest).  gen2_ok enc is a
+   boolean on the bytes Box.Encode wrote -- enc is a byte string, the decoder model accepts it completely and why_box has no reason
+   for its tree --; the driver evaluates it on the encoders' REAL output for every accepted, not reproduced input of the
+   correspondence run (G lines; evidence correspondence.second_generation).  Then enc is a fixed point on every API path: the second
+   decode gives an exact tree t2 that is its own normal form; the raw encoder, Box.Encode and Box.EncodeSW all write enc again;
+   Size() is its length.  NOT proved: that gen2_ok holds for every accepted input whose encoding succeeds (explored: all G lines). *)
+Theorem C01_fixpoint :
+  (forall bs t, bytes_ok bs = true -> decode bs = Ok (t, []) -> exact_box t = true ->
+   exists enc, raw_box false t = Ok enc /\ encode_w t = Ok enc /\ encode_sw t = Ok enc /\
     lenN enc = lenN bs /\ lenN enc = size_box t /\
     decode enc = Ok (norm_box t, []) /\ erase_rsv (norm_box t) = erase_rsv t /\
-    raw_box false (norm_box t) = Ok enc /\ encode_w (norm_box t) = Ok enc /\ encode_sw (norm_box t) = Ok enc.
-Proof. exact fixpoint_full. Qed.
+    raw_box false (norm_box t) = Ok enc /\ encode_w (norm_box t) = Ok enc /\ encode_sw (norm_box t) = Ok enc) /\
+  (forall bs t rest enc, decode bs = Ok (t, rest) -> encode_w t = Ok enc -> gen2_ok enc = true ->
+   raw_box false t = Ok enc /\
+   exists t2, decode enc = Ok (t2, []) /\ exact_box t2 = true /\ norm_box t2 = t2 /\
+    raw_box false t2 = Ok enc /\ encode_w t2 = Ok enc /\ encode_sw t2 = Ok enc /\ size_box t2 = lenN enc).
+Proof. exact (conj fixpoint_full generation2). Qed.
 Print Assumptions C01_fixpoint.
 
 (* C01_file_boxtree: stated below with the File-level acceptance rules of DecodeFileSR *)
@@ -350,8 +364,15 @@ Theorem C01_file_boxtree :
   (forall bs ts, bytes_ok bs = true -> decode_file bs = Ok ts -> forallb exact_box ts = true ->
    exists enc, encode_seq false ts = Ok enc /\ encode_seq_w ts = Ok enc /\ lenN enc = lenN bs /\
      decode_file enc = Ok (map norm_box ts) /\ encode_seq false (map norm_box ts) = Ok enc /\
-     encode_seq_w (map norm_box ts) = Ok enc).
-Proof. exact (conj file_accepted_fixpoint file_fixpoint_full). Qed.
+     encode_seq_w (map norm_box ts) = Ok enc) /\
+  (* third conjunct (round 4): the SECOND GENERATION of an accepted file that File.Encode does NOT reproduce (no exactness
+     hypothesis on ts: an inexact top-level box, a cut-short mdat): when the bytes enc that File.Encode wrote are accepted again by
+     DecodeFileSR and no top-level tree has a reason (gen2_file_ok enc: a boolean the driver evaluates on the REAL output, H lines),
+     enc is a fixed point of File.Encode, File.EncodeSW and the raw encoder *)
+  (forall bs ts enc, decode_file_sr bs = FOk ts -> file_encode_w ts = Ok enc -> gen2_file_ok enc = true ->
+   exists ts2, decode_file_sr enc = FOk ts2 /\ forallb exact_box ts2 = true /\ map norm_box ts2 = ts2 /\
+     file_encode_w ts2 = Ok enc /\ file_encode_sw ts2 = Ok enc /\ encode_seq false ts2 = Ok enc).
+Proof. exact (conj file_accepted_fixpoint (conj file_fixpoint_full generation2_file)). Qed.
 Print Assumptions C01_file_boxtree.
 
 (* the hypotheses are satisfiable, in both configurations of the quantifier: PROGRESSIVE files with the mdat BEFORE the moov and
@@ -432,3 +453,34 @@ Theorem C01_guards_refuted :
   refutes w_dec3_rsv [(n_dec3, RGuard)].
 Proof. exact (conj wvtt_short_refuted (conj esds_overflow_refuted (conj (conj sgpd_seig_rsv_refuted (proj1 sgpd_seig_rsv_exact)) (conj dac3_short_refuted dec3_rsv_refuted)))). Qed.
 Print Assumptions C01_guards_refuted.
+
+(* ---------------------------------------------------------------- the second generation of inputs that are NOT reproduced
+   (C01_fixpoint, second conjunct) *)
+(* the hypotheses are satisfiable by inputs the first generation really loses something of (url / avcC / mfhd with trailing body
+   bytes, a dac3 payload of two bytes, an unterminated elng): accepted, inexact, encoded to different bytes, gen2_ok of those *)
+Example C01_ex_generation2 : lossy_then_fixed w_url_tail /\ lossy_then_fixed w_avcc_extra /\ lossy_then_fixed w_mfhd_trailing /\
+  lossy_then_fixed w_dac3_short /\ lossy_then_fixed w_elng_unterminated.
+Proof. exact gen2_examples. Qed.
+(* gen2_ok is sufficient, not necessary: the esds that kept UnknownData is written back unchanged, the guard still names a reason *)
+Example C01_ex_generation2_guard : encode_w (treeof (ex_esds 0)) = Ok (ex_esds 0) /\ gen2 (ex_esds 0) = G2Why /\
+  decode (ex_esds 0) = Ok (treeof (ex_esds 0), []).
+Proof. exact gen2_guard_example. Qed.
+(* File level (C01_file_boxtree, third conjunct): the file with the cut-short mdat loses 4 bytes in the first generation; the 500
+   bytes File.Encode writes satisfy gen2_file_ok *)
+Example C01_ex_generation2_file : decode_file_sr fx_trunc_mdat = FOk (fseq_of fx_trunc_mdat) /\ forallb exact_box (fseq_of fx_trunc_mdat) = false /\
+  file_encode_w (fseq_of fx_trunc_mdat) = Ok (fenc_of fx_trunc_mdat) /\ lenN (fenc_of fx_trunc_mdat) = 500 /\ lenN fx_trunc_mdat = 504 /\
+  gen2_file_ok (fenc_of fx_trunc_mdat) = true.
+Proof. exact gen2_file_example. Qed.
+
+(* finding C01-K79 (known; found by the second-generation correspondence): DecodeElngSR decides "full-box header missing" from the
+   payload length alone (< 7).  The library's own encoding of CreateElng("x") (payload 6) is read back as a bare string starting with
+   the zero of version/flags: Language "" and missingFullBox, bytes left over; an accepted elng with bytes after an empty language
+   goes 16 -> 13 -> 9 bytes: the encoders' output is accepted again only in part (G2Rest) and the third encoding differs.  This is
+   what the hypothesis gen2_ok of C01_fixpoint's second conjunct excludes. *)
+Theorem C01_elng_generation2_refuted :
+  (raw_box false (MLeaf {| h_name := n_elng; h_size := 14; h_len := 8 |} (LElng false 0 0 [120]) [[120; 0]]) = Ok w_elng_x /\
+   exists h rsv rest, decode w_elng_x = Ok (MLeaf h (LElng true 0 0 []) rsv, rest) /\ rest <> []) /\
+  (exists t rest enc t2 rest2 enc3, decode w_elng_chain = Ok (t, rest) /\ encode_w t = Ok enc /\ gen2 enc = G2Rest /\
+     decode enc = Ok (t2, rest2) /\ rest2 <> [] /\ encode_w t2 = Ok enc3 /\ lenN enc = 13 /\ lenN enc3 = 9).
+Proof. exact elng_generation2_refuted. Qed.
+Print Assumptions C01_elng_generation2_refuted.
